@@ -430,8 +430,8 @@ def spans_files(msg):
 
 def attribute(msg):
     for fn, _, _ in spans_files(msg):
-        m = re.search(r"src/(p[a-z0-9_]*)\.rs$", fn)
-        if m:
+        m = re.search(r"shard\d+/src/([a-z][a-z0-9_]*)\.rs$", fn)
+        if m and m.group(1) != "main":
             return m.group(1)
     return None
 
@@ -439,7 +439,7 @@ def attribute(msg):
 def diag_summary(msg):
     lines = []
     for fn, ln, prim in spans_files(msg):
-        if re.search(r"src/p[a-z0-9_]*\.rs$", fn):
+        if re.search(r"shard\d+/src/[a-z][a-z0-9_]*\.rs$", fn):
             lines.append(ln)
     return {"code": (msg.get("code") or {}).get("code"), "message": msg.get("message"), "lines": sorted(set(l for l in lines if l)),
             "rendered": (msg.get("rendered") or "")[:1500]}
